@@ -2,15 +2,15 @@
 use parol::build::Builder;
 fn main() {
     // the crate directory is generated afresh on every run: a missing output must re-run this script
-    for p in ["ll", "lr", "ll_t", "lr_t", "ll_n", "e_ll", "e_lr", "e_ll_t", "e_lr_t", "e_ll_d", "e_lr_d", "e_ll_s", "e_lr_s", "e_ll_ts", "e_lr_ts", "e_ll_z", "e_lr_z", "n_ll", "ll_tn", "k_ll"] { for f in ["parser.rs", "grammar_trait.rs"] { println!("cargo:rerun-if-changed=src/gen/{p}_{f}"); } }
+    for p in ["ll", "lr", "ll_t", "lr_t", "ll_n", "e_ll", "e_lr", "e_ll_t", "e_lr_t", "e_ll_d", "e_lr_d", "e_ll_s", "e_lr_s", "e_ll_ts", "e_lr_ts", "e_ll_z", "e_lr_z", "n_ll", "ll_tn", "k_ll", "u_ll", "c_lr"] { for f in ["parser.rs", "grammar_trait.rs"] { println!("cargo:rerun-if-changed=src/gen/{p}_{f}"); } }
     println!("cargo:rerun-if-changed=build.rs");
-    for g in ["g_ll.par", "g_lr.par", "g2_ll.par", "g2_lr.par", "g3_ll.par", "g4_ll.par"] { println!("cargo:rerun-if-changed={g}"); }
+    for g in ["g_ll.par", "g_lr.par", "g2_ll.par", "g2_lr.par", "g3_ll.par", "g4_ll.par", "g5_ll.par", "g6_lr.par"] { println!("cargo:rerun-if-changed={g}"); }
     // five parsers: LL(k) and LALR(1), each with the full parse tree and with `trim_parse_tree`, and LL(k) with recovery disabled
     for (g, p, ty) in [("g_ll.par", "ll", "LlGrammar"), ("g_lr.par", "lr", "LrGrammar"), ("g_ll.par", "ll_t", "LlTGrammar"), ("g_lr.par", "lr_t", "LrTGrammar"), ("g_ll.par", "ll_n", "LlNGrammar"),
         ("g2_ll.par", "e_ll", "ELlGrammar"), ("g2_lr.par", "e_lr", "ELrGrammar"), ("g2_ll.par", "e_ll_t", "ELlTGrammar"), ("g2_lr.par", "e_lr_t", "ELrTGrammar"),
         ("g2_ll.par", "e_ll_d", "ELlDGrammar"), ("g2_lr.par", "e_lr_d", "ELrDGrammar"), ("g2_ll.par", "e_ll_s", "ELlSGrammar"), ("g2_lr.par", "e_lr_s", "ELrSGrammar"),
         ("g2_ll.par", "e_ll_ts", "ELlTsGrammar"), ("g2_lr.par", "e_lr_ts", "ELrTsGrammar"), ("g2_ll.par", "e_ll_z", "ELlZGrammar"), ("g2_lr.par", "e_lr_z", "ELrZGrammar"),
-        ("g3_ll.par", "n_ll", "NLlGrammar"), ("g_ll.par", "ll_tn", "LlTnGrammar"), ("g4_ll.par", "k_ll", "KLlGrammar")] {
+        ("g3_ll.par", "n_ll", "NLlGrammar"), ("g_ll.par", "ll_tn", "LlTnGrammar"), ("g4_ll.par", "k_ll", "KLlGrammar"), ("g5_ll.par", "u_ll", "ULlGrammar"), ("g6_lr.par", "c_lr", "CLrGrammar")] {
         std::fs::create_dir_all("src/gen").unwrap();
         let mut b = Builder::with_explicit_output_dir("src/gen");
         b.grammar_file(g)
